@@ -58,6 +58,13 @@ func (s *state) Persistent() types.PersistentState {
 }
 
 func (s *state) getLog(index uint64) (*types.PooledBuffer, error) {
+	// Anything below the first index has been truncated. We must check this here
+	// because the tail writer only knows the MinIndex it was created with and
+	// so would still serve entries removed by a later head truncation.
+	if index < s.firstIndex() {
+		return nil, ErrNotFound
+	}
+
 	// Check the tail writer first
 	if s.tail != nil {
 		raw, err := s.tail.GetLog(index)
